@@ -20,6 +20,27 @@ WBS.critical_path through the call graph, so renaming its private methods does n
                    return of WBS.critical_path is <new calculator>.calc() (no result kept on the WBS / memoised)
   C12.inherit      arcs come from predecessors of the task *and of all its ancestors*, each expanded to its leaves
 
+Round 3 additions:
+  * helpers the reference tree does not have and that are called inside an expression (statements + one final return,
+    `for n in self.__nodes + [self.__attach_terminal_nodes()]`) are spliced into their callers before anything is analysed
+    (c12_util.hoist_helpers; sa.normalize only splices calls that are a whole statement);
+  * C12.inherit: a test of the drawn tasks themselves (`[l for l in leaves(p) if len(l.successors) == 0]`, `if p.spent:
+    continue`) narrows the dependency sources -> REFUTED; a non-emptiness / not-None test of the very collection the elements
+    are drawn from (`if t.predecessors:`) is discharged;
+  * C12.passes: first-element test of the running minimum by truthiness (`min(acc or T, T)`, `if not acc:`) -> REFUTED (0 is a
+    legal latest time); a guard clause `if len(node.<links>) == 0: node.<field> = D; return` next to the fold is the fold's
+    default; link adjacency written as `+= [link]` / extend / insert; dependency loop over `list(param)` / a hoisted local;
+  * C12.leaf-arcs: the calculator's task argument may be `self.tasks`, a copy of it, or its leaf-only selection; a selection by
+    any other test of the task (`if (t.estimate or 0) > (t.spent or 0)`) -> REFUTED; nodes created in place
+    (`n = _PNode(); self.__nodes.append(n)`, also through aliases and tuple assignment) count as fresh registered nodes;
+    the constructor's insert loop may range over `tasks if end_date is None else [...]`;
+  * C12.registered: the `already inserted` test may be a guard clause, the condition the whole body is nested under, a test
+    at every call site, or a test of the arc table;
+  * verdict discipline: "construct not found" refutations (no sink, no dependency arcs, adjacency lists, leaf guard, memo
+    guard, insert loop) are REFUTED only under a closed-world argument (every statement / call of the function is accounted
+    for), otherwise UNDECIDED; an unusual common *source* (start value, link length, attached nodes) is never a violation,
+    because the source is redundant (nodes without incoming links start at the 0 of the forward fold anyway).
+
 Not decided: exactness of the longest-path result as a number (magnitude of the tolerance - a constant above 1e-3 is
 reported UNDECIDED -, float rounding inside the folds), "never empty when the WBS has a leaf" (follows from the clauses,
 not checked on its own), acyclicity handling (the property quantifies over acyclic WBSs), the end_date != None mode
